@@ -406,13 +406,34 @@ func (c *Check) ForOrRangeLoopWithCall(fn *ssa.Function, name, callee string) *L
 	}
 	var found []*Loop
 	for _, b := range fn.Blocks {
-		if !(strings.Contains(b.Comment, ".loop")) || len(b.Instrs) == 0 {
+		if len(b.Instrs) == 0 {
 			continue
 		}
-		if _, ok := b.Instrs[len(b.Instrs)-1].(*ssa.If); !ok {
+		rotated := strings.HasPrefix(b.Comment, "rangeint.body") // `for i := range n`: the body block carries the phis
+		if !strings.Contains(b.Comment, ".loop") && !rotated {
+			continue
+		}
+		if _, ok := b.Instrs[len(b.Instrs)-1].(*ssa.If); !ok && !rotated {
 			continue
 		}
 		blocks := naturalLoop(fn, b)
+		if rotated {
+			if len(blocks) < 1 {
+				continue
+			}
+			has := false
+			for bi := range blocks {
+				for _, ins := range fn.Blocks[bi].Instrs {
+					if ci, ok := ins.(ssa.CallInstruction); ok && nameMatch(calleeName(ci.Common()), callee) {
+						has = true
+					}
+				}
+			}
+			if has {
+				found = append(found, &Loop{Name: name, Header: b, Body: b, Blocks: blocks})
+			}
+			continue
+		}
 		has := false
 		for bi := range blocks {
 			for _, ins := range fn.Blocks[bi].Instrs {
